@@ -51,7 +51,7 @@ BOUNDS_E = ["U", "I0", "I2", "I3", "E0", "E1", "E3", "E4", "E8", "I%d" % MAXU, "
 def mutating_ops(r="v0", args=SMALL):
     """single operations on register r that need no second register"""
     ops = ["push %s 50" % r, "pop %s" % r, "clear %s" % r, "dedup %s" % r, "shrink_to_fit %s" % r,
-           "spare %s" % r, "split_spare %s" % r,
+           "spare %s" % r, "split_spare %s" % r, "views %s" % r,
            "retain %s mod2=0" % r, "retain %s seqTFTFT" % r, "dedup_by %s mod2=0" % r, "dedup_by_key %s kmod2" % r,
            "remove_item %s 2" % r, "remove_item %s 99" % r,
            "extend %s it[60,61]" % r, "extend %s it[]" % r, "extend_from_slice %s 70 71 72" % r, "extend_from_slice %s" % r,
@@ -86,7 +86,8 @@ def iter_ops(r="v0"):
     seqs = []
     for b1, b2 in [("U", "U"), ("I1", "E3"), ("I0", "I1"), ("E0", "U"), ("I2", "E2"), ("U", "E1")]:
         for steps in ([], ["next it"], ["next_back it"], ["next it", "next_back it", "next it", "next it", "next_back it"],
-                      ["next_back it", "next_back it", "next_back it", "next it"], ["nth it 1"], ["nth_back it 1", "nth it 9"]):
+                      ["next_back it", "next_back it", "next_back it", "next it"], ["nth it 1"], ["nth_back it 1", "nth it 9"],
+                      ["next_back it", "nth_back it 9"], ["next it", "next_back it", "nth_back it 1"], ["next_back it", "nth it 9"]):
             for fin in ("drop it", "forget it", "count it"):
                 seqs.append(["drain %s %s %s it" % (r, b1, b2)] + steps + ["size_hint it", "len it", fin, "push %s 77" % r])
         for fill in ("it[]", "it[7]", "it[7,8]", "it[7,8,9,10,11,12]"):
@@ -101,10 +102,11 @@ def iter_ops(r="v0"):
             for fin in ("drop it", "forget it", "count it"):
                 seqs.append(["drain_filter %s %s it" % (r, p)] + steps + ["size_hint it", fin, "push %s 77" % r])
     for steps in ([], ["next it"], ["next_back it"], ["next it", "next_back it", "next it", "next_back it", "next it", "next it"],
-                  ["nth it 1", "nth_back it 0"], ["nth it 9"], ["next it", "nth_back it 7"]):
+                  ["nth it 1", "nth_back it 0"], ["nth it 9"], ["next it", "nth_back it 7"], ["next it", "nth_back it 1"],
+                  ["next_back it", "nth_back it 1", "nth_back it 9"]):
         for fin in (["drop it"], ["forget it"], ["count it"], ["clone_iter it it2", "next it2", "drop it", "as_slice it2", "next_back it2", "drop it2"],
                     ["clone_iter it it2", "drop it2", "next it"]):
-            seqs.append(["into_iter %s it" % r] + steps + ["size_hint it", "len it", "as_slice it"] + fin)
+            seqs.append(["into_iter %s it" % r] + steps + ["size_hint it", "len it", "as_slice it", "iter_views it"] + fin)
     return seqs
 
 def ctor_ops():
@@ -192,7 +194,7 @@ def random_case(rng, name, cls, mode, nops, directives=(), hostile=False):
             if k < 4: ops.append("nth %s %d" % (it, len(ops) % 3) if len(ops) % 7 == 3 else "next " + it)
             elif k < 6 and kind != "df": ops.append("nth_back %s %d" % (it, len(ops) % 3) if len(ops) % 7 == 5 else "next_back " + it)
             elif k < 7: ops.append("size_hint " + it)
-            elif k < 8 and kind == "ii": ops.append("as_slice " + it)
+            elif k < 8 and kind == "ii": ops.append(("iter_views " if len(ops) % 3 == 1 else "as_slice ") + it)
             elif k == 8 and kind == "ii":
                 it2 = fresh("i"); ops.append("clone_iter %s %s" % (it, it2)); its.append((it2, "ii", None))
             else:
@@ -232,7 +234,9 @@ def random_case(rng, name, cls, mode, nops, directives=(), hostile=False):
         elif k < 34: ops.append("shrink_to_fit " + r)
         elif k < 35:
             rn = fresh("v"); ops.append("clone %s %s" % (r, rn)); regs.append(rn)
-        elif k < 36: ops.append(rng.pick(["spare ", "split_spare "]) + r)
+        elif k < 36:
+            o = rng.pick(["spare ", "split_spare "])
+            ops.append(("views " if len(ops) % 2 == 0 else o) + r)
         elif k < 37:
             it = fresh("i"); ops.append("drain %s %s %s %s" % (r, bound(True), bound(False), it)); its.append((it, "dr", r)); lent.add(r)
         elif k < 38:
